@@ -7,6 +7,16 @@ CooArray = namedtuple("CooArray", ["row", "col", "val", "key", "ind", "min", "de
 COO_QUICKSORT_LIMIT = 1 << 16
 COO_MEM_MULTIPLIER = 1.5
 
+# Verification hook (inactive unless VECTORIZERS_VERIF=1): lets checks lower the sort/merge threshold so that
+# the multi-level merge and buffer growth paths are reachable with small corpora.
+import os as _os
+
+if (
+    _os.environ.get("VECTORIZERS_VERIF") == "1"
+    and "VECTORIZERS_VERIF_COO_LIMIT" in _os.environ
+):
+    COO_QUICKSORT_LIMIT = int(_os.environ["VECTORIZERS_VERIF_COO_LIMIT"])
+
 
 @numba.njit(nogil=True)
 def set_array_size(token_sequences, window_array):
